@@ -222,8 +222,9 @@ pub fn oddify(s: &str, salt: u64) -> String {
     out
 }
 
-/// like `oddify` but WITHOUT changing letter case: equal tokens keep equal bytes (for checks that
-/// compare reconstructed texts byte for byte)
+/// like `oddify` but with ONE letter case: every ASCII letter is lower-cased, so that tokens which are equal
+/// under the type's case-insensitive `Eq` have equal bytes whatever the generator produced (for checks that
+/// compare reconstructed texts byte for byte: an Equal change carries the old side's bytes)
 pub fn oddify_same_case(s: &str) -> String {
     let mut out = String::with_capacity(s.len() + 8);
     let mut prev = '\0';
@@ -231,7 +232,7 @@ pub fn oddify_same_case(s: &str) -> String {
         if c == '\n' && prev != '\r' && (prev.to_ascii_lowercase() as u32) % 2 == 0 {
             out.push('\u{2028}');
         } else {
-            out.push(c);
+            out.push(c.to_ascii_lowercase());
         }
         prev = c;
     }
